@@ -144,6 +144,8 @@ Definition demo_contexts : gmap string (list redef) :=
 Definition demo_decl : decl := mkdecl demo_systems demo_contexts (Some "mks").
 Definition demo_tk (s : string) : option (list (string * Qc)) := Some [(s, 1%Qc)].
 Definition smoot : udef := mkud "smoot" (Some "smt") [] 67 1 [("inch", 1%Qc)] false.
+Definition bronto : pdef := PDef "bronto" (Some "Br") [] (mkq (10 ^ 33)%Z 1).
+Definition mkpd (name : string) (sym : option string) (n : Z) (d : positive) : pdef := PDef name sym [] (mkq n d).
 Definition am : udef := mkud "am" None [] 5 1 [("second", 1%Qc)] false.
 Definition answers_eqb (a b : list answer) : bool :=
   Nat.eqb (length a) (length b) && forallb (λ xy : answer * answer, answer_eqb xy.1 xy.2) (zip a b).
